@@ -1554,6 +1554,14 @@ theorem flatMap_congr' {β γ : Type} (f g : γ → List β) (l : List γ) (h : 
   | cons x t ih =>
     simp only [List.flatMap_cons, h x (by simp), ih (fun y hy => h y (by simp [hy]))]
 
+theorem range_split (Y : Nat) (hY : 2 ≤ Y) :
+    List.range Y = [0] ++ (List.range (Y - 2)).map (fun k => k + 1) ++ [Y - 1] := by
+  apply List.ext_getElem?; intro i
+  rw [getElem?_range_ite, List.getElem?_append, List.getElem?_append]
+  simp only [List.length_append, List.length_cons, List.length_nil, List.length_map, List.length_range,
+    List.getElem?_singleton, getElem?_map_range]
+  split_ifs <;> first | rfl | omega | (congr 1; omega)
+
 /-- the loop of `MeatAndDairy.__init__` for a horizon of `Y ≥ 2` whole years -/
 theorem grassTons_eq (Y : Nat) (hY : 2 ≤ Y) (base : K) (ratio : Nat → K) :
     grassTons (12 * Y) base ratio =
@@ -1562,24 +1570,21 @@ theorem grassTons_eq (Y : Nat) (hY : 2 ≤ Y) (base : K) (ratio : Nat → K) :
         ++ List.replicate 16 (ratio Y * base) := by
   unfold grassTons
   have hdiv : 12 * Y / 12 = Y := by omega
-  rw [hdiv, foldl_append_flatMap, List.nil_append, List.range'_eq_map_range, List.flatMap_map]
-  have hsplit : Y = 1 + ((Y - 2) + 1) := by omega
-  conv_lhs => rw [hsplit, List.range_add, List.range_succ]
-  simp only [List.flatMap_append, List.map_append, List.flatMap_map, List.range_one, List.flatMap_cons,
-    List.flatMap_nil, List.append_nil, List.map_cons, List.map_nil]
+  rw [hdiv, foldl_append_flatMap, List.nil_append, List.range'_eq_map_range, List.flatMap_map, range_split Y hY]
+  simp only [List.flatMap_append, List.flatMap_map, List.flatMap_cons, List.flatMap_nil, List.append_nil]
   congr 1
   · congr 1
     · simp
     · apply flatMap_congr'
       intro k hk
       have hk' := List.mem_range.mp hk
-      have h1 : ¬ (1 + (1 + k) = 1) := by omega
-      have h2 : ¬ (12 * (1 + (1 + k)) = 12 * Y) := by omega
-      have h3 : 1 + (1 + k) = k + 2 := by omega
+      have h1 : ¬ (1 + (k + 1) = 1) := by omega
+      have h2 : ¬ (12 * (1 + (k + 1)) = 12 * Y) := by omega
+      have h3 : 1 + (k + 1) = k + 2 := by omega
       simp only [h1, h2, if_false, h3]
-  · have h1 : ¬ (1 + (1 + (Y - 2)) = 1) := by omega
-    have h2 : 12 * (1 + (1 + (Y - 2))) = 12 * Y := by omega
-    have h3 : 1 + (1 + (Y - 2)) = Y := by omega
+  · have h1 : ¬ (1 + (Y - 1) = 1) := by omega
+    have h2 : 12 * (1 + (Y - 1)) = 12 * Y := by omega
+    have h3 : 1 + (Y - 1) = Y := by omega
     simp only [h1, h2, if_false, if_true, h3]
 
 theorem getElem?_grassTons (Y : Nat) (hY : 2 ≤ Y) (base : K) (ratio : Nat → K) (i : Nat) :
